@@ -111,7 +111,9 @@ pub fn c02(st: &Step, v: &mut Verdicts) {
                 let one_each = nchars(&pre.buf) == pre.len as usize && nchars(&post.buf) == post.len as usize && !has_bopomofo(&post.commit);
                 if one_each {
                     let k = nchars(&post.commit) as i64 + post.len as i64 - pre.len as i64;
-                    if !(0..=8).contains(&k) || (st.pre_state == b'S' && k > 1) {
+                    // Backspace / Delete (after the limit was lowered in mid-composition) take one away first
+                    let lo = if matches!(st.op, Op::Named(N_BACKSPACE) | Op::Named(N_DEL)) { -1 } else { 0 };
+                    if !(lo..=8).contains(&k) || (st.pre_state == b'S' && k > 1) {
                         v.push(("C02", format!("committed {:?} ({} chars) + {} remaining != {} before + those just typed", post.commit, nchars(&post.commit), post.len, pre.len)));
                     }
                 }
